@@ -18,7 +18,7 @@ import ast
 import re
 
 from sa import cast
-from sa.astutil import walk_body, walk_local, dotted, norm, callee_attr, Resolver, cmp_parts, const_value
+from sa.astutil import linear, less_than, walk_body, walk_local, dotted, norm, callee_attr, Resolver, cmp_parts, const_value
 from sa.cfg import CFG, node_calls, node_exprs
 from sa.repo import AnalysisError
 
@@ -55,6 +55,29 @@ def _is_null_return(n):
 
 
 PRELOAD_C = ['miasm/jitter/vm_mngr_py.c', 'miasm/jitter/vm_mngr.c']
+
+
+def _range_convention(jc):
+    """'exclusive' when ad_max = last offset + last length (one past the end), 'inclusive' when it is that minus one; both
+    branches of set_block_min_max (lines present / one-byte unknown block) must follow the same convention."""
+    fn = jc.func("JitCore.set_block_min_max")
+    res = Resolver(fn)
+    got = []
+    for n in walk_body(fn):
+        if isinstance(n, ast.Assign) and norm(n.targets[0]).endswith(".ad_max"):
+            terms, c = linear(res.expand_node(n.value))
+            names = sorted(t for t, k in terms if k == 1)
+            if len(names) == 2 and any(t.endswith("lines[-1].offset") for t in names) and any(t.endswith("lines[-1].l") for t in names) and len(terms) == 2:
+                got.append("exclusive" if c == 0 else "inclusive" if c == -1 else "?")
+            elif len(terms) == 1 and names:
+                got.append("exclusive" if c == 1 else "inclusive" if c == 0 else "?")
+            else:
+                got.append("?")
+    mins = [n for n in walk_body(fn) if isinstance(n, ast.Assign) and norm(n.targets[0]).endswith(".ad_min")]
+    first = any(norm(res.expand_node(n.value)).endswith("lines[0].offset") for n in mins)
+    if len(got) == 2 and got[0] == got[1] and got[0] != "?" and first:
+        return got[0], "ok"
+    return None, "ad_max assignments follow %s, ad_min from first line: %s" % (got, first)
 
 
 def run(ck):
@@ -302,10 +325,21 @@ def run(ck):
     ck.ob("R4", "add_block_to_mem_interval", ok and upd, jc.where(fn),
           "the block's address range is not added to the interval and pushed to the VM with add_code_bloc")
     # min/max must cover the whole block: first line offset .. last line offset + length
+    conv, why = _range_convention(jc)
     fn = jc.func("JitCore.set_block_min_max")
-    txt = norm(ast.Module(body=fn.body, type_ignores=[])).replace(" ", "")
-    ok = "cur_block.ad_min=cur_block.lines[0].offset" in txt and "cur_block.ad_max=cur_block.lines[-1].offset+cur_block.lines[-1].l" in txt
-    ck.ob("R4", "set_block_min_max", ok, jc.where(fn), "block range is not [first offset, last offset + last length)")
+    ck.ob("R4", "set_block_min_max", conv is not None, jc.where(fn), "block range is not first offset .. last offset + last length (%s)" % why)
+    # every interval built from a block's bounds is closed ([a, b] in miasm.core.interval): the end is ad_max - 1 when ad_max is
+    # one past the last byte, ad_max itself when it is the last byte
+    nint = 0
+    for q, f2 in sorted(jc.funcs.items()):
+        for n in walk_body(f2):
+            if isinstance(n, ast.Tuple) and len(n.elts) == 2 and norm(n.elts[0]).endswith(".ad_min") and ".ad_max" in norm(n.elts[1]):
+                terms, c = linear(n.elts[1])
+                ok = conv is not None and len(terms) == 1 and list(terms)[0][0].endswith(".ad_max") and c == (-1 if conv == "exclusive" else 0)
+                nint += 1
+                ck.ob("R4", "%s:closed-interval-end" % q, ok, jc.where(n),
+                      "ad_max is %s but the closed interval ends at `%s`: the recorded code range is one byte off" % (conv, norm(n.elts[1])))
+    ck.need(nint >= 1, "no interval built from (ad_min, ad_max) found in jitcore.py")
 
     # ------------------------------------------------------------------ R5
     jl = ck.repo.mod(JL)
@@ -343,21 +377,39 @@ def run(ck):
         (isinstance(n, ast.Call) and dotted(n.func) == "self.loc_key_to_block.pop")]
     ck.ob("R6", "del_block_in_range:drop-translation", bool(dels_func), jc.where(fn), "translated functions of modified blocks are kept")
     ck.ob("R6", "del_block_in_range:drop-block", bool(dels_blk), jc.where(fn), "block entries of modified blocks are kept")
-    # overlap predicate: not-modified iff ad_max <= ad1 or ad_min >= ad2
+    # overlap predicate against the half-open range [ad1, ad2), under the convention set_block_min_max establishes for ad_max:
+    #   untouched  iff  ad_max <= ad1 (ad_max exclusive) / ad_max < ad1 (inclusive)  or  ad_min >= ad2
     p1, p2 = fn.args.args[1].arg, fn.args.args[2].arg
+    conv, _why = _range_convention(jc)
     ok = False
+    detail = "no overlap test on ad_min/ad_max found"
     for n in walk_local(body):
-        if isinstance(n, ast.If) and isinstance(n.test, ast.BoolOp) and isinstance(n.test.op, ast.Or):
-            parts = set(norm(v).replace(" ", "") for v in n.test.values)
-            if parts == set(["block.ad_max<=%s" % p1, "block.ad_min>=%s" % p2]):
-                # true branch = untouched, else = modified
-                ok = any(isinstance(c, ast.Call) and callee_attr(c) == "add" for c in walk_local(ast.Module(body=n.orelse, type_ignores=[])))
-        if isinstance(n, ast.If) and isinstance(n.test, ast.BoolOp) and isinstance(n.test.op, ast.And):
-            parts = set(norm(v).replace(" ", "") for v in n.test.values)
-            if parts == set(["block.ad_max>%s" % p1, "block.ad_min<%s" % p2]):
-                ok = any(isinstance(c, ast.Call) and callee_attr(c) == "add" for c in walk_local(ast.Module(body=n.body, type_ignores=[])))
+        if not (isinstance(n, ast.If) and isinstance(n.test, ast.BoolOp) and len(n.test.values) == 2):
+            continue
+        untouched_when = isinstance(n.test.op, ast.Or)     # `or` of two "disjoint" atoms / `and` of two "overlap" atoms
+        rel = {}
+        for v in n.test.values:
+            lt = less_than(v, True)
+            if lt is None:
+                continue
+            a, b, strict = norm(lt[0]), norm(lt[1]), lt[2]
+            rel[(a.split(".")[-1], b.split(".")[-1])] = strict
+        if untouched_when:
+            # ad_max (<|<=) ad1 ; ad2 (<|<=) ad_min
+            k1, k2 = ("ad_max", p1), (p2, "ad_min")
+            want1, want2 = (conv == "inclusive"), False
+            sel = n.orelse
+        else:
+            # ad1 (<|<=) ad_max ; ad_min (<|<=) ad2
+            k1, k2 = (p1, "ad_max"), ("ad_min", p2)
+            want1, want2 = (conv == "exclusive"), True
+            sel = n.body
+        if k1 in rel and k2 in rel:
+            sel_ok = any(isinstance(c, ast.Call) and callee_attr(c) == "add" for c in walk_local(ast.Module(body=sel, type_ignores=[])))
+            ok = conv is not None and rel[k1] == want1 and rel[k2] == want2 and sel_ok
+            detail = "ad_max is %s (set_block_min_max) and [%s, %s) is half-open, but the test is `%s`" % (conv, p1, p2, norm(n.test))
     ck.ob("R6", "del_block_in_range:overlap", ok, jc.where(fn),
-          "a block is selected for removal iff it overlaps [ad1, ad2): expected `ad_max <= ad1 or ad_min >= ad2` to mean untouched")
+          "a block is selected for removal iff it overlaps the written range: %s" % detail)
     rebuilt = any(isinstance(n, ast.Assign) and any(dotted(t) == "self.blocks_mem_interval" for t in n.targets)
                   and "self.loc_key_to_block" in norm(n.value) for n in walk_local(body))
     ck.ob("R6", "del_block_in_range:rebuild-interval", rebuilt, jc.where(fn), "the code interval is not rebuilt from the remaining blocks")
